@@ -108,7 +108,7 @@ class CaseSpec(dict):
 
 
 def lattice(nrs, nts, what, tier, min_circles=2, min_radial=3, need_odd_nr=False, need_nt4=False, geoms=None,
-            with_culham=True, cycle_offsets=(0,), threads_cycle=(1,), extra=None, full_product=False):
+            with_culham=True, cycle_offsets=(0,), threads_cycle=(1,), extra=None, full_product=False, auto_min_nr=0):
     """Structural dimensions (nr, ntheta, split class, boundary) in full product; spacing / geometry / profile / R0 /
     Rmax cycled with co-prime strides so that every value meets every structural class (pairwise), or the full
     product when full_product is set."""
@@ -122,7 +122,7 @@ def lattice(nrs, nts, what, tier, min_circles=2, min_radial=3, need_odd_nr=False
             for nt in nts:
                 if need_nt4 and nt % 4 != 0:
                     continue
-                splits = [None] + [c for c in range(min_circles, nr - min_radial + 1)]
+                splits = ([None] if nr >= auto_min_nr else []) + [c for c in range(min_circles, nr - min_radial + 1)]
                 for sp in splits:
                     for dirbc in (0, 1):
                         combos = []
